@@ -62,6 +62,7 @@ type aConf struct {
 	PageExpMS  int64    `json:"pageexp_ms"`
 	PageLimit  int      `json:"pagelimit"`
 	Root       string   `json:"root"` // sub-directory name under the case directory ("" = "root")
+	Cwd        bool     `json:"cwd"`  // run the case with the root directory as the working directory of the process
 }
 
 type aFile struct {
@@ -845,6 +846,7 @@ func (e *aEnv) step(st aStep, idx int) (res aRes) {
 		cur := st
 		cur.Op, cur.Method = "http", "GET"
 		pages := []aRes{}
+		others := [][]aRes{}
 		for n := 0; n < 60; n++ {
 			r := e.doHTTP(cur, -1)
 			pages = append(pages, r)
@@ -861,8 +863,17 @@ func (e *aEnv) step(st aStep, idx int) (res aRes) {
 				break
 			}
 			cur.Path, cur.Query = lu.Path, lu.RawQuery
+			// the same continuation link addressed to other repositories (st.Names): what they answer is in Par[1+i]
+			for i, name := range st.Names {
+				o := cur
+				o.Path = strings.Replace(lu.Path, "/v2/"+st.Repo+"/", "/v2/"+name+"/", 1)
+				for len(others) <= i {
+					others = append(others, []aRes{})
+				}
+				others[i] = append(others[i], e.doHTTP(o, -1))
+			}
 		}
-		res.Par = [][]aRes{pages}
+		res.Par = append([][]aRes{pages}, others...)
 	case "par":
 		res.Par = make([][]aRes, len(st.Par))
 		var wg sync.WaitGroup
@@ -929,6 +940,16 @@ func runCase(c aCase, work string) (out aOut) {
 	if err := writeFiles(e.rootDir(), c.Seed); err != nil {
 		out.Fatal = err.Error()
 		return out
+	}
+	if c.Conf.Cwd {
+		// (cases of one process run one after the other)
+		if old, err := os.Getwd(); err == nil {
+			if abs, err := filepath.Abs(e.rootDir()); err == nil && os.Chdir(abs) == nil {
+				e.dir, _ = filepath.Abs(e.dir)
+				dir = e.dir
+				defer func() { _ = os.Chdir(old) }()
+			}
+		}
 	}
 	e.s = New(e.mkConf())
 	defer func() {
